@@ -81,9 +81,13 @@ func scanFile(r io.Reader) (*machoMarkers, error) {
 		_, _ = io.ReadFull(r, ident[:])
 		endOfHeader += 4
 	}
-	dat := make([]byte, f.Cmdsz)
-	if _, err := io.ReadFull(r, dat); err != nil {
+	// the size of the load commands is not trusted, so let the buffer grow as
+	// data actually arrives instead of allocating it up front
+	dat, err := io.ReadAll(io.LimitReader(r, int64(f.Cmdsz)))
+	if err != nil {
 		return nil, err
+	} else if int64(len(dat)) != int64(f.Cmdsz) {
+		return nil, io.ErrUnexpectedEOF
 	}
 	endOfHeader += len(dat)
 	f.nextLc = int64(endOfHeader)
